@@ -55,6 +55,13 @@ def run(ctx):
     rc, out, err, _ = ctx.run_bin("replay_basen", ["--selftest-perturb"], stdin_path=head)
     ctx.selftest("perturbed expectation is reported by replay_basen", "FAIL " in out)
     ctx.replay_cases("replay_basen", cases, label="basen")
+    # 2b. Base32 beyond one 8-character group (every final-group residue 0..7
+    # after a complete group), model-checked and replayed in one TLC run
+    cases32 = os.path.join(ctx.work, "cases32.ndjson")
+    deep = ctx.tlc("MC_BaseN", "MC_BaseN_deep32", workers=8, label="mc+gen-deep32",
+                   coverage=False, cases_to=cases32)
+    ctx.require_ok(deep, "MC_BaseN deep32")
+    ctx.replay_cases("replay_basen", cases32, label="basen-deep32")
     # 3. I->S: recorded decoder runs on long random texts validated by TLC
     n_traces = 6 if thorough else 2
     for i in range(n_traces):
